@@ -135,7 +135,27 @@ pub fn jsonld_shapes(rng: &mut Rng, d: &mut Vec<Q>) {
         }
     };
     let g = rng.pick(&gs).clone();
-    match rng.below(3) {
+    match rng.below(4) {
+        3 => {
+            // a well-formed list whose parent statement, or whose cells, are unusual: parent predicate rdf:type / rdf:first / rdf:rest,
+            // blank parent; a cell that also names a graph, is described in another graph, or is referenced from elsewhere
+            let (c0, c1) = (40, 41);
+            let parent_s = if rng.chance(1, 2) { iri("http://ex/a") } else { b(0) };
+            let parent_p = rng.pick(&[iri("http://ex/p"), rdf("type"), rdf("first"), rdf("rest"), rdf("value")]).clone();
+            push(d, ([parent_s, parent_p, b(c0)], g.clone()));
+            push(d, ([b(c0), rdf("first"), iri("http://ex/i1")], g.clone()));
+            push(d, ([b(c0), rdf("rest"), b(c1)], g.clone()));
+            push(d, ([b(c1), rdf("first"), lit_dt("2", &format!("{XSD}integer"))], g.clone()));
+            push(d, ([b(c1), rdf("rest"), rdf("nil")], g.clone()));
+            let cell = if rng.chance(1, 2) { c0 } else { c1 };
+            match rng.below(6) {
+                0 => push(d, ([iri("http://ex/a"), iri("http://ex/p"), iri("http://ex/o")], Some(b(cell)))),   // the cell names a graph
+                1 => push(d, ([b(cell), iri("http://ex/p"), iri("http://ex/o")], Some(iri("http://ex/g2")))),     // described in another graph
+                2 => push(d, ([iri("http://ex/a"), iri("http://ex/q"), b(cell)], Some(iri("http://ex/g2")))),     // referenced from another graph
+                3 => push(d, ([iri("http://ex/b"), iri("http://ex/q"), b(cell)], g.clone())),                     // referenced twice
+                _ => {}
+            }
+        }
         0 => {
             let dt = *rng.pick(&["he_rtl", "en-us_ltr", "_rtl", "_ltr", "fr_rtl"]);
             let subj = if rng.chance(1, 2) { iri("http://ex/a") } else { b(0) };
@@ -173,9 +193,9 @@ pub fn jsonld_shapes(rng: &mut Rng, d: &mut Vec<Q>) {
 pub fn xml_shapes(rng: &mut Rng, d: &mut Vec<Q>) {
     const PIECES: [&str; 30] = ["<", ">", "&", "\"", "'", " ", "  ", "\n", "\r", "\r\n", "\t", "]]>", "<b>", "</b>", "&amp;", "&#10;", "<!--", "-->", "<?x?>", "a", "é", "\u{1F600}", "\u{85}", "\u{2028}",
         "\u{FFFD}", "x y", "\u{1}", "\u{B}", "\u{FFFE}", "\u{FFFF}"];
-    const PREDS: [&str; 22] = ["http://ex/p", "http://ex/ns#p", "http://ex/a/b.c", "http://ex/1p", "http://ex/p-1", "urn:x:p", "http://ex/é", "http://ex/a%20b", "http://ex/x:y", "http://ex/ns#", "http://ex/",
+    const PREDS: [&str; 26] = ["http://ex/p", "http://ex/ns#p", "http://ex/a/b.c", "http://ex/1p", "http://ex/p-1", "urn:x:p", "http://ex/é", "http://ex/a%20b", "http://ex/x:y", "http://ex/ns#", "http://ex/",
         "http://ex/p1/", "http://ex/_", "http://ex/a.b-c_d", "http://www.w3.org/1999/02/22-rdf-syntax-ns#_1", "http://www.w3.org/1999/02/22-rdf-syntax-ns#li", "http://www.w3.org/1999/02/22-rdf-syntax-ns#Description",
-        "http://www.w3.org/1999/02/22-rdf-syntax-ns#about", "http://www.w3.org/1999/02/22-rdf-syntax-ns#value", "http://ex/ns#1", "http://ex/\u{1F600}p", "http://ex/ns?q=p"];
+        "http://www.w3.org/1999/02/22-rdf-syntax-ns#about", "http://www.w3.org/1999/02/22-rdf-syntax-ns#value", "http://ex/ns#1", "http://ex/\u{1F600}p", "http://ex/ns?q=p", "urn:x:1", "http://ex/ns:42", "http://ex/a:", "urn:x:p:-"];
     let n = 1 + rng.below(4);
     for _ in 0..n {
         const LABELS: [&str; 8] = ["0", "_0", "1a", "a.b", "é", "b0", "__0", "a-b"];
